@@ -172,7 +172,10 @@ def special_names():
              ("Id", "int32", {}), ("InSyncReplicas", "[]int32", {}), ("WhatIsQ", "string", {}), ("TopicName", "string", {"entityType": "topicName"}),
              ("BrokerId", "int32", {"entityType": "brokerId", "default": "-1"}), ("ProducerId", "int64", {"entityType": "producerId"}),
              ("Groups", "[]string", {"entityType": "groupId"}), ("Crc32C", "int32", {}), ("Sha256ID", "bytes", {}), ("Offset64K", "int64", {}),
-             ("V0Port", "int32", {}), ("X509Cert", "string", {}), ("MaxTimestampMs", "int64", {}), ("ExpiryTimestampMs", "int64", {"default": "-1"})]
+             ("V0Port", "int32", {}), ("X509Cert", "string", {}), ("MaxTimestampMs", "int64", {}), ("ExpiryTimestampMs", "int64", {"default": "-1"}),
+             # words that are Python builtins when run together (only the snake-cased result decides about the underscore suffix)
+             ("ByteArray", "bytes", {}), ("FrozenSet", "[]int32", {}), ("IsInstance", "bool", {}), ("MemoryView", "bytes", {}), ("ClassMethod", "string", {}),
+             ("Input", "string", {}), ("Format", "int8", {}), ("Hash", "int64", {}), ("Max", "int32", {}), ("Match", "string", {})]
     for n, t, kw in names:
         for flex in ("none", "0+"):
             for mk in ("request", "response"):
@@ -235,6 +238,12 @@ def api_pairs():
         req = make_def("request", "0-2", flex, [F("Topics", "[]WidgetTopic", fields=topic_req), F("Single", "WidgetInfo", fields=[F("Alpha", "int8")])], api_key=9000 + i, name=base)
         res = make_def("response", "0-2", flex, [F("ThrottleTimeMs", "int32"), F("Topics", "[]WidgetTopic", fields=topic_res), F("Single", "WidgetInfo", fields=[F("Beta", "string")])], api_key=9000 + i, name=base)
         out += [req, res]
+    # keys of the upstream format that carry no structure (the generator reads past them): every declared version of
+    # both halves is still generated
+    req = make_def("request", "0-3", "2+", [F("GroupId", "string", entityType="groupId", about="The group."), F("Epoch", "int32", default="-1", about="x")], api_key=9010, name="Pair9Widget")
+    req.update({"latestVersionUnstable": True, "listeners": ["zkBroker", "broker"], "about": "A request."})
+    res = make_def("response", "0-3", "2+", [F("ThrottleTimeMs", "int32"), F("ErrorCode", "int16")], api_key=9010, name="Pair9Widget")
+    out += [req, res]
     return out
 
 
